@@ -6,7 +6,7 @@ set -u
 seed=$1; shift
 W=/tmp/tryseed-$seed
 rm -rf $W; git clone -q /repo $W/repo || exit 2
-git -C $W/repo apply $V/seeded/$seed/patch.diff || { echo "patch does not apply"; exit 2; }
+git -C $W/repo apply ${VERIF_SEEDS:-$V/seeded}/$seed/patch.diff || { echo "patch does not apply"; exit 2; }
 mkdir -p $W/build
 for c in "$@"; do VERIF_REPO=$W/repo VERIF_BUILD=$W/build $V/check $c | grep -v KNOWN-FINDING | sed "s/^/[$seed] /"; done
 rm -rf /tmp/tryseed-keep/$seed; mkdir -p /tmp/tryseed-keep/$seed; cp -r $W/build/evidence /tmp/tryseed-keep/$seed/ 2>/dev/null
